@@ -26,9 +26,9 @@ structure Thread where
 abbrev State := List Thread
 
 /-- the program acquires only locks of rank strictly above everything currently held (no re-entry),
-    and releases only what it holds -/
+    releases only what it holds, and holds nothing when it ends -/
 def respects : List Lock → List Op → Prop
-  | _, [] => True
+  | held, [] => held = []          -- balanced: everything is released at the end
   | held, .acq l :: rest => (∀ h ∈ held, h < l) ∧ respects (l :: held) rest
   | held, .rel l :: rest => l ∈ held ∧ respects (held.erase l) rest
 
